@@ -4,7 +4,8 @@ import ast
 
 from .common import AnalysisError, Report
 from . import cxx, py
-from .ir import E, walk_expr, all_exprs, show
+from .cxx import int_type
+from .ir import E, walk_expr, walk_stmts, all_exprs, show
 from .paths import Engine, Rule, path_of
 
 META = {
@@ -174,6 +175,18 @@ class CacheRule(Rule):
     def __init__(self, R, fn, key_param):
         self.R, self.fn, self.key = R, fn, key_param
         self.returns = 0
+        # the key under another name: a local initialised with the (converted) key parameter and never assigned again
+        self.keys = {key_param}
+        assigned = {s.a[0].a[0] for s in walk_stmts(fn.body) if s.k == 'assign' and s.a[0].k == 'var'}
+        for s in walk_stmts(fn.body):
+            if s.k == 'decl' and s.a[2] is not None and s.a[0] not in assigned and self._strip(s.a[2]).k == 'var' and self._strip(s.a[2]).a[0] in self.keys:
+                self.keys.add(s.a[0])
+
+    @staticmethod
+    def _strip(e):
+        while e.k in ('cast', 'ptrcast'):
+            e = e.a[-1]
+        return e
 
     def initial(self):
         return [frozenset()]
@@ -188,7 +201,7 @@ class CacheRule(Rule):
         return frozenset([(k, x) for k, x in st if k != v] + [(v, s)])
 
     def _is_key(self, e):
-        return path_of(e) == self.key
+        return path_of(self._strip(e)) in self.keys
 
     def assign(self, s, st, tr):
         if s.k == 'decl':
@@ -199,6 +212,7 @@ class CacheRule(Rule):
             return st
         if init is None:
             return st
+        init = self._strip(init)
         if init.k == 'call' and init.a[0].endswith('::findUsingZoneInfo'):
             if len(init.a[2]) == 1 and self._is_key(init.a[2][0]):
                 return self._set(st, name, 'found?')
@@ -254,6 +268,12 @@ def find_rule(R, f):
     key = f.params[0][0]
     defs = {}
 
+    def slot(e):
+        """the slot an expression designates, whether written as the element (slots[i], *p) or as its address (&slots[i], p)"""
+        while e.k in ('cast', 'ptrcast', 'addr', 'deref'):
+            e = e.a[-1] if e.k in ('cast', 'ptrcast') else e.a[0]
+        return show(e)
+
     class FR(Rule):
         def initial(self_):
             return [frozenset()]
@@ -261,6 +281,11 @@ def find_rule(R, f):
         def assign(self_, s, st, tr):
             if s.k == 'decl' and s.a[2] is not None:
                 defs[s.a[0]] = s.a[2]
+            name = s.a[0] if s.k == 'decl' else (s.a[0].a[0] if s.a[0].k == 'var' else None)
+            if name is not None:
+                # what was established about a slot named through this variable no longer holds once it moves on
+                import re as _re
+                st = frozenset(x for x in st if not _re.search(r'\b%s\b' % _re.escape(name), x))
             return st
 
         def refine(self_, cond, st, truth):
@@ -275,16 +300,13 @@ def find_rule(R, f):
                             while d.k in ('cast', 'ptrcast'):
                                 d = d.a[-1]
                         if d.k == 'call' and d.a[0].endswith('::getZoneInfo') and d.a[1] is not None:
-                            return st | {show(d.a[1])}
+                            return st | {slot(d.a[1])}
             return st
 
         def at_exit(self_, kind, stmt, st, tr):
             if kind == 'return' and stmt.a[0] is not None and stmt.a[0].k != 'null':
                 R.instance('R3-find', f.name, stmt.loc)
-                tgt = stmt.a[0]
-                if tgt.k == 'addr':
-                    tgt = tgt.a[0]
-                if show(tgt) not in st:
+                if slot(stmt.a[0]) not in st:
                     R.violation('R3-find', f.name, stmt.loc, 'returns %s without having compared its zone info with the key on this path' % show(stmt.a[0]), detail=list(tr))
     Engine(FR()).run(f.body)
 
@@ -315,6 +337,38 @@ def index_rule(R, lib, f):
     if len(idx_paths) != 1 or None in idx_paths:
         raise AnalysisError('%s: slot array indexed by %r' % (f.loc, idx_paths))
     idx = idx_paths.pop()
+    # E-ABS: the counter starts inside [0, SIZE) (class invariant, re-established at every exit: checked below); every
+    # subscript of the slot array and every exit must find it there.  The wrap may be spelled `i++; if (i >= SIZE) i = 0`,
+    # `i = (i + 1 < SIZE) ? i + 1 : 0`, a modulus, ...: the interpreter works on the relations, not on the spelling.
+    from .absint import AbsInt, DBM, Hooks, INF
+
+    class IH(Hooks):
+        def on_index(self_, ai, e, st):
+            if path_of(e.a[0]) == arrp:
+                lo, hi = ai.range_of(ai.lin(e.a[1], st), st)
+                R.instance('R3-index', f.name, e.loc, 'slot index in [%s, %s], capacity %d' % (lo, hi, size))
+                if lo < 0 or hi > size - 1:
+                    R.violation('R3-index', f.name, e.loc, 'slot index ranges over [%s, %s] but the cache has %d slots' % (
+                        '-inf' if lo <= -INF else int(lo), '+inf' if hi >= INF else int(hi), size))
+    ai = AbsInt(fold_global=lib.global_value, hooks=IH())
+    st0 = DBM()
+    for pn, pt in f.params:
+        ai.declare(st0, pn, pt)
+    it = int_type(fields.get(idx.replace('this.', '')))
+    if it:
+        ai.types[idx] = it
+    st0.add(idx, '0', size - 1)
+    st0.add('0', idx, 0)
+    out = ai.run(f.body, st0)
+    exits = [(s_, rst) for s_, rst in ai.ret_states] + ([] if out.bottom else [(None, out)])
+    for s_, rst in exits:
+        lo, hi = rst.bounds(idx)
+        loc_ = s_.loc if s_ is not None else f.loc
+        R.instance('R3-index', f.name + '@exit', loc_)
+        if lo < 0 or hi > size - 1:
+            R.violation('R3-index', f.name + '@exit', loc_, 'function can return with the round-robin index in [%s, %s], outside [0, %d)' % (
+                '-inf' if lo <= -INF else int(lo), '+inf' if hi >= INF else int(hi), size))
+    return
 
     class IR(Rule):
         # state: (lo, hi) interval of idx, starting from the class invariant [0, SIZE-1]
